@@ -690,6 +690,113 @@ func c13(c *h.Ctx) {
 			c13Handshake(c, sc, cc, true, 0)
 		}
 	}
+	// 6. several compressed sessions in one process: whatever the endpoints share behind the scenes (pooled
+	// decompressors), a message is received by its own session only. Session A reads one message to the end, then A and
+	// B each open a reader and are read in small alternating steps.
+	{
+		frame := func(data []byte) []byte { // a client frame as a server receives it: FIN, RSV1, binary, masked with a zero key
+			z := wsDeflate(data, 6)
+			hdr := []byte{0xc2}
+			switch {
+			case len(z) < 126:
+				hdr = append(hdr, 0x80|byte(len(z)))
+			case len(z) < 65536:
+				hdr = append(hdr, 0x80|126, byte(len(z)>>8), byte(len(z)))
+			default:
+				hdr = append(hdr, 0x80|127, 0, 0, 0, 0, byte(len(z)>>24), byte(len(z)>>16), byte(len(z)>>8), byte(len(z)))
+			}
+			return append(append(hdr, 0, 0, 0, 0), z...)
+		}
+		for round := 0; round < c.N(6, 60); round++ {
+			m1, m2, m3 := []byte(strings.Repeat("first-", 20+round)), h.LCGBytes(3000+round*7, uint32(round)), []byte(strings.Repeat("THIRD/", 400+round))
+			a := ws.VerifNewConn(newWsFake(append(frame(m1), frame(m2)...)), true, 0, 256, true)
+			b := ws.VerifNewConn(newWsFake(frame(m3)), true, 0, 256, true)
+			in := fmt.Sprintf("two compressed server sessions, round %d: A reads message 1 whole; A and B open readers for messages 2 and 3 and are read alternately", round)
+			res := h.Safe(func() string {
+				_, p1, err := a.ReadMessage()
+				if err != nil || !bytes.Equal(p1, m1) {
+					return fmt.Sprintf("A message 1: %v", err)
+				}
+				_, ra, err := a.NextReader()
+				if err != nil {
+					return "A NextReader: " + err.Error()
+				}
+				_, rb, err := b.NextReader()
+				if err != nil {
+					return "B NextReader: " + err.Error()
+				}
+				var ga, gb []byte
+				buf := make([]byte, 97)
+				for doneA, doneB := false, false; !doneA || !doneB; {
+					if !doneA {
+						n, err := ra.Read(buf)
+						ga = append(ga, buf[:n]...)
+						doneA = err != nil
+					}
+					if !doneB {
+						n, err := rb.Read(buf[:61])
+						gb = append(gb, buf[:n]...)
+						doneB = err != nil
+					}
+				}
+				if !bytes.Equal(ga, m2) || !bytes.Equal(gb, m3) {
+					return fmt.Sprintf("A got %d bytes (equal=%v), B got %d bytes (equal=%v)", len(ga), bytes.Equal(ga, m2), len(gb), bytes.Equal(gb, m3))
+				}
+				return "ok"
+			})
+			c.Hold(res == "ok", "sessions_do_not_share_state", in, res, "ok")
+			c.Case("two-sessions/compressed", in, true)
+		}
+	}
+
+	// 7. the implicit close: a message writer the application did not close is closed by the next NextWriter /
+	// WriteMessage (documented) — with everything that closing means (the final frame, the compressor's flush). The
+	// peer receives both messages intact.
+	for _, deflate := range []bool{false, true} {
+		for _, server := range []bool{false, true} {
+			for _, n := range []int{0, 5, 125, 126, 1024, 70000} {
+				for next := 0; next < 2; next++ {
+					tr := newWsFake(nil)
+					conn := ws.VerifNewConn(tr, server, 0, 512, deflate)
+					d1, d2 := h.LCGBytes(n, uint32(n+next)), []byte("the message after the unclosed one")
+					in := fmt.Sprintf("implicit close role=%s deflate=%v: NextWriter; Write(%d bytes); no Close; then %s", roleStr(server), deflate, n, []string{"WriteMessage", "NextWriter+Write+Close"}[next])
+					res := h.Safe(func() string {
+						w, err := conn.NextWriter(ws.BinaryMessage)
+						if err != nil {
+							return "NextWriter: " + err.Error()
+						}
+						if _, err := w.Write(d1); err != nil {
+							return "Write: " + err.Error()
+						}
+						if next == 0 {
+							if err := conn.WriteMessage(ws.TextMessage, d2); err != nil {
+								return "WriteMessage: " + err.Error()
+							}
+						} else {
+							w2, err := conn.NextWriter(ws.TextMessage)
+							if err != nil {
+								return "second NextWriter: " + err.Error()
+							}
+							w2.Write(d2)
+							if err := w2.Close(); err != nil {
+								return "Close: " + err.Error()
+							}
+						}
+						peer := ws.VerifNewConn(newWsFake(tr.Written()), !server, 0, 512, deflate)
+						t1, p1, e1 := peer.ReadMessage()
+						t2, p2, e2 := peer.ReadMessage()
+						if e1 != nil || e2 != nil || t1 != ws.BinaryMessage || t2 != ws.TextMessage || !bytes.Equal(p1, d1) || !bytes.Equal(p2, d2) {
+							return fmt.Sprintf("peer: message 1 type %d %d bytes err=%v; message 2 type %d %d bytes err=%v", t1, len(p1), e1, t2, len(p2), e2)
+						}
+						return "ok"
+					})
+					c.Hold(res == "ok", "peer_receives_same_sequence.implicit_close", in, res, "ok")
+					c.Case(fmt.Sprintf("implicit-close/deflate=%v", deflate), in, true)
+				}
+			}
+		}
+	}
+
 	// the other two entry points of the opening handshake: NewClient (client side, over a connection the caller
 	// dialled) against a compressing and a plain server, and the package-level Upgrade function (server side)
 	// against a compressing and a plain client
